@@ -404,15 +404,25 @@ def c07_latency(tr, out, snaps_by_market, case):
     for p in tr.packages:
         m = p["market"]
         tk = tr.ticks[p["tick"]]
-        if tk["market"] != m:
-            out.v("package-created-outside-its-market-update", {"kind": p["kind"]}, package=p, tick=tk)
-            continue
         t = tk["pt"]
-        try:
-            i_req = times[m].index(t)
-        except ValueError:
-            out.v("request-time-not-a-publish-time", {"kind": p["kind"]}, package=p, tick=tk)
-            continue
+        if tk["market"] != m:
+            # a request made while another market's update was being processed (event-grouped runs): the delay still counts
+            # from the request; the market's own state (bet delay) is that of its latest update
+            if not case.get("event_processing") or tk["market"] not in times or m not in times:
+                out.v("package-created-outside-its-market-update", {"kind": p["kind"]}, package=p, tick=tk)
+                continue
+            last = next((tr.ticks[j] for j in range(p["tick"] - 1, -1, -1) if tr.ticks[j]["market"] == m), None)
+            if last is None or last["pt"] not in times[m]:
+                continue
+            # (index of the market's latest processed update; with repeated publish times the last of them)
+            i_req = max(i for i, x in enumerate(times[m]) if x == last["pt"])
+            out.c("cross_market_requests")
+        else:
+            try:
+                i_req = times[m].index(t)
+            except ValueError:
+                out.v("request-time-not-a-publish-time", {"kind": p["kind"]}, package=p, tick=tk)
+                continue
         lat = cfg.get(LAT_KEYS[p["kind"]], LAT_DEFAULT[LAT_KEYS[p["kind"]]])
         d = lat + (delays[m][i_req] if p["kind"] in ("PLACE", "REPLACE") else 0)
         # latencies are whole milliseconds, publish times are integer ms: the comparison is decided exactly.
@@ -493,8 +503,13 @@ def c07_latency(tr, out, snaps_by_market, case):
             if ack is not None and stamps["placed"] != tr.ticks[ack["tick"]]["pt"]:
                 out.v("placed-stamp-not-effect-time", {}, order=o, stamps=stamps, ack=ack)
         if not full_match:
+            # a fill is stamped with the publish time of the book it was matched against: the market's previous book, which for a
+            # request made during a sibling market's update (event-grouped run) is older than the order itself
+            # (also a replacement order, whose creation time is that of the replace request)
+            own = [tk_["pt"] for tk_ in tr.ticks if tk_["market"] == order.market_id and tk_["pt"] is not None and tk_["pt"] <= created]
+            lb = max(own) if own else created
             for f in order.simulated.matched:
-                if f[0] < created or f[0] > final_ms:
+                if f[0] < lb or f[0] > final_ms:
                     out.v("fragment-stamp-outside-life", {}, order=o, frag=list(f), stamps=stamps)
     for cb in tr.callbacks:
         if cb.get("now") is not None and cb.get("pt") is not None:
@@ -558,6 +573,8 @@ def c08_settlement(tr, out, snaps_by_market, case):
         matched = sum(f[2] for f in frags)
         out.rule("order-profit")
         tags = {"market_type": mt, "result": rs, "otype": s["otype"], "side": s["side"], "dead_heat": k > 1}
+        if s["otype"] == "MOC" and s["side"] == "LAY" and abs(matched - s["sm"]) > 0.005:
+            tags["sp_lay_resized"] = True  # matched size no longer that of its fill (non-runner after the starting price was struck)
         if s["runner_status"] != rs:
             out.v("runner-status-not-copied", tags, order=o, sample=s, file_status=rs)
         if s["sm"] > 0:
@@ -718,6 +735,14 @@ def c09_removals(tr, out, snaps_by_market, case, tags):
                                 pass  # the formula needs the runner's own factor: unconstrained
                             elif abs(s["liability"] - expL) > 1e-6:
                                 out.v("sp-lay-liability-not-scaled", {"market_type": mt, "cause": cause}, order=o, before=prev, after=s, expected=expL, factor=af, own=own)
+                            if prev["frags"] and af is not None and af >= 2.5:
+                                # the lay was already matched at the starting price (late withdrawal): it is a matched fill on another
+                                # runner like any other, its price is reduced and its size stays
+                                out.rule("reduction")
+                                want = [reduced_price(f[1], af) for f in prev["frags"]]
+                                gotp = [f[1] for f in s["frags"][: len(want)]]
+                                if any(abs(a - b) > 0.0051 for a, b in zip(gotp, want)) or abs(s["sm"] - prev["sm"]) > 1e-9:
+                                    out.v("matched-sp-lay-not-reduced-like-a-fill", {"market_type": mt, "size_changed": abs(s["sm"] - prev["sm"]) > 1e-9}, order=o, before=prev, after=s, expected_prices=want, factor=af)
                             prev = dict(prev, liability=s["liability"])
                         else:
                             exp = [reduced_price(p, af) for p in exp]
